@@ -35,7 +35,7 @@ def seed():
 # ------------------------------------------------------------------------------------------
 class Work:
     def __init__(self, pid):
-        self.dir = os.path.join(VERIF, ".work", "%s-%d" % (pid, os.getpid()))
+        self.dir = os.path.join(os.environ.get("VERIF_WORK_DIR") or os.path.join(VERIF, ".work"), "%s-%d" % (pid, os.getpid()))
         shutil.rmtree(self.dir, ignore_errors=True)
         os.makedirs(self.dir)
 
@@ -156,13 +156,23 @@ def go_env():
 
 
 def build_harness(work, race=False, tags="verif"):
-    """Builds harness/cmd/vh against the *current* /repo working tree."""
+    """Builds harness/cmd/vh against the *current* /repo working tree.  (VERIF_REPO=<dir> points the
+    build at another checkout through an alternative go.mod; used only to evaluate seeded changes
+    in scratch worktrees without touching /repo.)"""
     out = work.path("vh-race" if race else "vh")
     cmd = ["go", "build", "-tags", tags, "-o", out]
     if race:
         cmd.append("-race")
-    cmd.append("./cmd/vh")
     sync_gosum()
+    if os.path.abspath(REPO) != "/repo":
+        alt = work.path("alt.mod")
+        with open(os.path.join(HARNESS, "go.mod")) as f:
+            mod = f.read().replace("=> /repo", "=> " + os.path.abspath(REPO))
+        with open(alt, "w") as f:
+            f.write(mod)
+        shutil.copy(os.path.join(REPO, "go.sum"), work.path("alt.sum"))
+        cmd += ["-modfile", alt]
+    cmd.append("./cmd/vh")
     p = subprocess.run(cmd, cwd=HARNESS, env=go_env(), stdout=subprocess.PIPE, stderr=subprocess.STDOUT)
     if p.returncode != 0:
         raise Inconclusive("harness build failed:\n" + p.stdout.decode("utf-8", "replace"))
@@ -179,6 +189,8 @@ def build_par(work, tags="verif"):
 
 
 def sync_gosum():
+    if os.path.abspath(REPO) != "/repo":
+        return
     src = os.path.join(REPO, "go.sum")
     dst = os.path.join(HARNESS, "go.sum")
     try:
@@ -281,7 +293,7 @@ def match_known(known, verdict_event):
 # evidence, replays, exit
 # ------------------------------------------------------------------------------------------
 def write_replay(pid, name, payload):
-    d = os.path.join(VERIF, "replays")
+    d = os.environ.get("VERIF_REPLAY_DIR") or os.path.join(VERIF, "replays")
     os.makedirs(d, exist_ok=True)
     h = hashlib.sha1(json.dumps(payload, sort_keys=True, default=str).encode()).hexdigest()[:10]
     p = os.path.join(d, "%s-%s-%s.json" % (pid, name, h))
@@ -291,7 +303,7 @@ def write_replay(pid, name, payload):
 
 
 def write_evidence(pid, tier, coverage, wall, violations, assumptions, level="model_checking"):
-    d = os.path.join(VERIF, "evidence")
+    d = os.environ.get("VERIF_EVIDENCE_DIR") or os.path.join(VERIF, "evidence")
     os.makedirs(d, exist_ok=True)
     ev = {
         "property_id": pid,
@@ -380,6 +392,8 @@ class Ctx:
         return out
 
     def judge(self, module, trace_path, parallel=1, **kw):
+        if self.selftest and not getattr(self, "_in_selftest", False):
+            self._run_selftest(module, trace_path, **kw)
         if parallel > 1:
             return self._judge_parallel(module, trace_path, parallel, **kw)
         self._jn = getattr(self, "_jn", 0) + 1
@@ -390,6 +404,31 @@ class Ctx:
         self.tlc_cmds.append(r.cmd)
         log("[%s] judge %s: %d events, %d verdicts, %.1fs" % (self.pid, module, n, len(verdicts), r.wall))
         return verdicts
+
+    def _run_selftest(self, module, trace_path, **kw):
+        """--selftest: corrupt one recorded field and require the trace spec to reject that event."""
+        import selftest
+        done = self.extra.setdefault("binding_selftest", [])
+        if any(d["module"] == module for d in done):
+            return
+        events = read_ndjson(trace_path)
+        self._in_selftest = True
+        try:
+            def jf(evs):
+                self._stn = getattr(self, "_stn", 0) + 1
+                p = self.work.path("selftest-%s-%d.ndjson" % (module, self._stn))
+                write_ndjson(p, evs)
+                vd, n, r = judge(self.work.sub("selftest-%s-%d" % (module, self._stn)), module, p, **{k: v for k, v in kw.items() if k in ("timeout", "xmx")})
+                return vd
+            res = selftest.run(self, module, events, jf)
+        finally:
+            self._in_selftest = False
+        done.extend(res)
+        bad = [r for r in res if r.get("rejected") is False]
+        for r in res:
+            log("[%s] selftest %s / %s: %s" % (self.pid, module, r["corruption"], "rejected" if r.get("rejected") else r.get("result", "NOT REJECTED")))
+        if bad:
+            raise Inconclusive("binding self-test failed: corrupted events were accepted: %s" % bad)
 
     def _judge_parallel(self, module, trace_path, k, **kw):
         """Round-robin split of the trace over k concurrent TLC judges (each event is judged on its
